@@ -137,6 +137,43 @@ def gen_waits():
     return "Waits.lean", "\n".join(lines)
 
 
+def gen_hdlc():
+    raw = open(os.path.join(REPO, "src", "hdlc_deframer.rs")).read()
+    src = strip_rust(raw)
+    m = re.search(r"const\s+FCSTAB\s*:\s*&\[u16\]\s*=\s*&\[(.*?)\];", src, flags=re.S)
+    if not m:
+        raise SystemExit("extract: FCSTAB not found in hdlc_deframer.rs")
+    vals = [int(x, 16) for x in re.findall(r"0x([0-9a-fA-F]+)", m.group(1))]
+    # the flag the deframer searches for (comparison in the Unsynced arm)
+    bodies = fn_bodies(src)
+    upd = find_fn(bodies, r"HdlcDeframer$", "update_state")
+    fm = re.search(r"==\s*0x([0-9a-fA-F]+)", upd)
+    if not fm:
+        raise SystemExit("extract: flag comparison not found in update_state")
+    flag = int(fm.group(1), 16)
+    crc = find_fn_free(src, "calc_crc")
+    im = re.search(r"fold\(\s*0x([0-9a-fA-F]+)u16", crc)
+    xm = re.search(r"\^\s*0x([0-9a-fA-F]+)\s*\}?\s*$", crc.strip().rstrip("}").strip())
+    init = int(im.group(1), 16) if im else -1
+    xorout = int(xm.group(1), 16) if xm else -1
+    lines = ["/-! GENERATED by tools/extract.py from /repo/src/hdlc_deframer.rs on every run. Do not edit. -/",
+             "namespace RR.Gen", "",
+             "def fcstab : List Nat := [" + ", ".join(str(v) for v in vals) + "]", "",
+             f"def hdlcFlag : Nat := {flag}",
+             f"def crcInit : Nat := {init}",
+             f"def crcXorOut : Nat := {xorout}", "",
+             "end RR.Gen", ""]
+    return "Hdlc.lean", "\n".join(lines)
+
+
+def find_fn_free(src, name):
+    m = re.search(r"\bfn\s+%s\s*\(" % name, src)
+    if not m:
+        raise SystemExit(f"extract: fn {name} not found")
+    k = src.find("{", m.end())
+    return block_at(src, k)
+
+
 def main():
     os.makedirs(GEN, exist_ok=True)
     gens = []
